@@ -1641,6 +1641,20 @@ def _numlike(v):
 def _known_sign(d):
     """sign of a Rat that is a single real term in symbols declared positive (poly.POSITIVE), else None"""
     from . import poly
+    try:
+        ats = d.atoms()
+    except Exception:
+        ats = None
+    if ats and all(poly._ATOMS[a].fn is not None and a not in poly.POSITIVE for a in ats):
+        # a closed expression (functions of constants only): its sign is decided by evaluating it, when clearly non-zero
+        try:
+            v, scale = d.num.evalf_scaled({})
+            w, wscale = d.den.evalf_scaled({})
+            if v == v and w == w and abs(v.imag) <= 1e-12 * max(scale, 1e-300) and abs(w.imag) <= 1e-12 * max(wscale, 1e-300) \
+                    and abs(v.real) > 1e-9 * scale and abs(w.real) > 1e-9 * wscale:
+                return 1 if (v.real > 0) == (w.real > 0) else -1
+        except (ValueError, ZeroDivisionError, OverflowError, KeyError, TypeError):
+            pass
     if not d.is_poly() or not d.num.t:
         return None
     sign = None
